@@ -4,6 +4,7 @@ outside the exclusion `K_C07_zeroSectorAscii`, listing returns what the referenc
 -/
 import CoCoVerif.Props.DiskDefs
 import CoCoVerif.Lemmas.DiskReaderB
+import CoCoVerif.Lemmas.DiskWitness
 
 namespace CoCo.Props
 open CoCo CoCo.Dsk
@@ -44,5 +45,24 @@ theorem C07_partial :
        K_C07_zeroSectorAscii img = false →
          Dsk.list img = .ok (ds.map ofDFile)) :=
   ⟨C07_write_list, C07_reader_partial⟩
+
+/-- part (b) of C07 is false without the exclusion: the image `Witness.img` (blank, one ASCII entry in slot 0
+whose chain is granule 0 with table entry $C0 = "0 sectors used") passes the consistency check, the reference
+reader finds an empty file, the tool returns 2048 bytes of $FF. -/
+theorem C07_finding_zeroSector :
+    ¬ (∀ (img : Bytes) (ds : List Spec.DiskBasic.DFile),
+       Spec.DiskBasic.Fsck img → Spec.DiskBasic.read img = some ds →
+       (∀ d ∈ ds, (∀ c ∈ d.name, c < 128) ∧ (∀ c ∈ d.ext, c < 128)) →
+         Dsk.list img = .ok (ds.map ofDFile)) := by
+  intro H
+  apply Witness.list_ne Witness.wimg
+  apply H Witness.img [Witness.d0] (Witness.fsck Witness.wimg) (Witness.read_eq Witness.wimg)
+  intro d hd
+  simp at hd
+  subst hd
+  exact ⟨by decide, by decide⟩
+
+/-- hence C07 as stated (without the exclusion) does not hold for the tool -/
+theorem C07_Statement_false : ¬ C07_Statement := fun h => C07_finding_zeroSector h.2
 
 end CoCo.Props
